@@ -82,6 +82,11 @@ impl Model {
             if node.path.is_empty() || nodes.contains_key(&node.path) {
                 return Err(format!("bad or duplicate node {:?}", node.path));
             }
+            if node.path == crate::scenario::F {
+                // the foreign root hangs nowhere: it is reached through links only
+                nodes.insert(node.path.clone(), Info { kind: node.kind.clone(), mode: node.mode, children: vec![] });
+                continue;
+            }
             let par = parent(&node.path).to_string();
             match nodes.get_mut(&par) {
                 Some(info) if info.kind == Kind::Dir => {
@@ -153,7 +158,10 @@ impl Model {
                     }
                     let (from, rest) = match target.strip_prefix(crate::scenario::R) {
                         Some(rest) => (String::new(), rest.to_string()),
-                        None => (cur.clone(), target.clone()),
+                        None => match target.strip_prefix(crate::scenario::F) {
+                            Some(rest) => (crate::scenario::F.to_string(), rest.to_string()),
+                            None => (cur.clone(), target.clone()),
+                        },
                     };
                     cur = self.resolve_from(from, &rest, true, hops)?;
                 },
